@@ -196,10 +196,20 @@ func runC20(r *rt.Runner) {
 			fld("listUnique", tArr(key()).with(func(t *jT) { t.Rules = &jRules{MinItems: pU(1), MaxItems: pU(5), Unique: pB(true)} })),
 			fld("byName", tMap(key())),
 			fld("byNameSized", tMap(key()).with(func(t *jT) { t.Rules = &jRules{MinPairs: pU(1), MaxPairs: pU(5)} })),
+			// with entity annotations
+			fld("primary", key().with(func(t *jT) { t.Primary = pB(true) })),
+			fld("notPrimary", key().with(func(t *jT) { t.Primary = pB(false) })),
+			fld("foreign", key().with(func(t *jT) { t.Foreign = "other.v1.thing" })),
+			fld("tenant", key().with(func(t *jT) { t.Tenant = "account" })),
 		}
+		// the keys of an entity: compiled into the Keys message and into the requests of the query service
+		entity := &jEntity{Name: "Widget", Keys: []*jF{fld("widgetId", key().with(func(t *jT) { t.Primary = pB(true) })), fld("partId", key().with(func(t *jT) { t.Primary = pB(true) })), fld("batchId", key())},
+			Data: []*jF{fld("name", tScalar(kString))}, Statuses: []string{"ACTIVE"}, Events: []*jEvent{{Name: "Created"}}}
+		entityKeyFields := map[string]bool{"widget_id": true, "part_id": true, "batch_id": true}
+		entityMessages := map[string]bool{"WidgetKeys": true, "WidgetGetRequest": true, "WidgetEventsRequest": true}
 		// the same as arms of a oneof (plain, required, optional)
 		arms := []*jF{fld("byId", key()), {Name: "byNeededId", T: key(), Req: true}, {Name: "byMaybeId", T: key(), Opt: true}}
-		b := elemsBundle(objDecl("Keys", fields...), &jElem{Decl: &jDecl{Kind: kOneof, Name: "Lookup", Fields: arms}})
+		b := elemsBundle(objDecl("Keys", fields...), &jElem{Decl: &jDecl{Kind: kOneof, Name: "Lookup", Fields: arms}}, &jElem{Entity: entity})
 		src := b.sources()
 		det := srcDetail(src)
 		cp, err := compileBundlePackage(newMemBundle(src), "iso.v1")
@@ -217,10 +227,16 @@ func runC20(r *rt.Runner) {
 		}
 		for _, fd := range typedProtos(cp.Protos) {
 			for _, m := range fd.MessageType {
-				if m.GetName() != "Keys" && m.GetName() != "Lookup" {
+				if m.GetName() != "Keys" && m.GetName() != "Lookup" && !entityMessages[m.GetName()] {
 					continue
 				}
 				for _, f := range m.Field {
+					if entityMessages[m.GetName()] {
+						if !entityKeyFields[f.GetName()] {
+							continue
+						}
+						c.Event("entity_key_patterns_read")
+					}
 					got := ""
 					if f.Options != nil && proto.HasExtension(f.Options, validate.E_Field) {
 						fc := proto.GetExtension(f.Options, validate.E_Field).(*validate.FieldConstraints)
@@ -235,7 +251,7 @@ func runC20(r *rt.Runner) {
 					}
 					c.Event("compiled_patterns_read")
 					if got != publishedID62Pattern {
-						c.Violate("pattern/compiled/"+f.GetName(), fmt.Sprintf("field %s (key:id62) is compiled with pattern %q, the published pattern is %q", f.GetName(), got, publishedID62Pattern), det)
+						c.Violate("pattern/compiled/"+f.GetName(), fmt.Sprintf("field %s of %s (key:id62) is compiled with pattern %q, the published pattern is %q", f.GetName(), m.GetName(), got, publishedID62Pattern), det)
 					}
 				}
 			}
